@@ -591,7 +591,7 @@ func TestC35(t *testing.T) {
 		}
 	}
 	rng := r.Rand("cases")
-	n := r.N(1200, 24000)
+	n := r.N(1200, 12000)
 	cases := make([]c35Case, n)
 	for i := range cases {
 		cases[i] = c35Gen(rng)
